@@ -16,7 +16,11 @@ import (
 
 func init() { register("C04", checkC04) }
 
+var fileRewindRule = emitRule{Name: "uploaded file is rewound after its size was measured", Trees: []string{"serverParameter"}, Rx: `size, _ := file\.Seek\(0, io\.SeekEnd\)\s*file\.Seek\(0, io\.SeekStart\)`, Need: []guardAtom{{"IsFileParam", +1}}, Min: 1,
+	Why: "measuring the upload seeks to its end; without a rewind to the start the handler reads an empty file"}
+
 var clientWireRules = []emitRule{
+	fileRewindRule,
 	{Name: "client query values are named by the spec name", Trees: []string{"clientParameter"}, Rx: `r\.SetQueryParam\(`, Need: []guardAtom{{"IsQueryParam", +1}}, Args: []string{"Name"}, Min: 2,
 		Why: "the client writes a query parameter under the name the server reads it from"},
 	{Name: "client path values are named by the spec name", Trees: []string{"clientParameter"}, Rx: `r\.SetPathParam\(`, Need: []guardAtom{{"IsPathParam", +1}}, Args: []string{"Name"}, Min: 2,
@@ -67,6 +71,9 @@ func checkC04(c *Ctx) {
 	checkEmitRules(c, "C04.R1.wire", ev, clientWireRules)
 	checkClientLocations(c, ev)
 	checkBinderLocations(c, "C04.R1.server-locations", ev)
+	// the request must reach the handler of the operation the client method was generated for
+	c.Rule("C04.R1.routing", "the server registers and looks up every operation under its own method and path; the client method carries the same id, method and path", 8)
+	checkEmitRules(c, "C04.R1.routing", ev, registrationRules)
 	checkFormatterTables(c, gen)
 	checkParsePointerAssertions(c, ev, gen)
 
